@@ -71,6 +71,9 @@ class C15(hc.PProp):
     def plan(self, rng, tier, index):
         rol = rng.choice([None, '0', '-1', '10 KB'])
         plan = hc.std_plan(rng, {'cache': rng.choice(['mem', 'mem', 'rock', 'ufs', 'none']), 'cache_mem_mb': 16, 'lines': ['range_offset_limit %s' % rol] if rol else []}, hostile=rng.random() < 0.4)
+        if plan['conf']['cache'] in ('rock', 'ufs') and rng.random() < 0.6:
+            # hits read from the cache_dir, not from memory: the first store answer then carries body bytes together with the headers
+            plan['conf']['lines'].append(rng.choice(['maximum_object_size_in_memory 0 KB', 'memory_cache_mode disk']))
         urls = []
         for u in range(rng.randint(3, 6)):
             urls.append({'sizes': [rng.choice([0, 1, 2, 100, 4095, 4096, 4097, 10000, 32768, 65536, 65537, 200000])], 'lm': True, 'cc': 'max-age=100000',
@@ -125,7 +128,16 @@ class C15(hc.PProp):
             want, bad = parse_range(rng_hdr[0], L) if rng_hdr else (None, True)
             if m.status == 200:
                 if m.complete and m.body != full:
-                    V.append(Violation('C15:wrong-200-body', 'request %s: 200 body differs from the representation: %s' % (r.id, hc.diff_desc(m.body, full))))
+                    cls = 'C15:wrong-200-body'
+                    # one recognisable shape: the body starts at the lowest first-byte-pos named in the Range header that squid then decided to ignore
+                    firsts = [int(x) for x in re.findall(r'(?:=|,)\s*(\d+)\s*-', rng_hdr[0])] if rng_hdr else []
+                    if firsts and min(firsts) > 0 and not re.search(r'(?:=|,)\s*-\s*\d', rng_hdr[0]) and len(m.body) == len(full):
+                        off = min(firsts); sh = full[off:]
+                        i = next((j for j in range(len(sh)) if m.body[j] != sh[j]), len(sh))
+                        # the first store buffer was advanced by `off`, the following reads continue from the unshifted position: full[off:n] + full[n-off:]
+                        if i > 0 and m.body[i:] == full[i:]:
+                            cls = 'C15:wrong-200-body:starts-at-lowest-range-offset'
+                    V.append(Violation(cls, 'request %s Range %r: 200 body differs from the representation: %s' % (r.id, rng_hdr, hc.diff_desc(m.body, full))))
                 if rng_hdr:
                     stats['n200_with_range'] += 1
                 continue
